@@ -373,7 +373,7 @@ def classify(tree):
     return 'symbolic', '+'.join(sorted(kinds))
 
 
-def judge_text(tree, aseed, st, text):
+def judge_text(tree, aseed, st, text, nassign=NASSIGN):
     """-> None when the observation agrees with the oracle, ('skip', why) when nothing can be said, else (failure class, detail)"""
     if st == 'err':
         return ('error', text.split('\n')[0][:200])
@@ -402,8 +402,8 @@ def judge_text(tree, aseed, st, text):
     foreign = out_syms - src_syms - {('unit', '')}
     compared = 0
     rng = random.Random(aseed)
-    for _ in range(NASSIGN * 3):
-        if compared >= NASSIGN:
+    for _ in range(nassign * 3):
+        if compared >= nassign:
             break
         asg = make_assignment(rng)
         try:
@@ -617,7 +617,7 @@ def subtrees(t):
 def shrink(ctx, tree, aseed, failure):
     """1. the smallest sub-tree that fails in the same class; 2. greedily: a child in place of a node, plain values, plainer
     operand kinds - each step only if the failure class stays the same"""
-    budget = [400]
+    budget = [4000]          # candidate evaluations (most are answered from the cache of observations)
     cur = tree
 
     def failing(cands):
@@ -626,7 +626,7 @@ def shrink(ctx, tree, aseed, failure):
         budget[0] -= len(cands)
         out = []
         for c, (st, text) in zip(cands, observe_many(ctx, cands)):
-            v = judge_text(c, aseed, st, text)
+            v = judge_text(c, aseed, st, text, 5 * NASSIGN)      # more points: a candidate must not pass by luck
             if v is not None and v[0] == failure:
                 out.append(c)
         return out
@@ -634,7 +634,7 @@ def shrink(ctx, tree, aseed, failure):
     def usable(cands, cur):
         seen, out = set([render(cur)]), []
         for c in cands:
-            if not well_typed(c) or count_ops(c) < 1:
+            if not well_typed(c) or (count_ops(c) < 1 and c[0] not in ('paren', 'calc')):
                 continue
             key = render(c)
             if key in seen:
